@@ -88,3 +88,22 @@ Theorem C10_engine_no_page_is_lost_with_readers : forall (k P : N) (es : list En
      ((2 <= x)%N /\ (x < Engine.d_np (fst h'))%N) /\ ~ In x (EngineRefines.live_of (fst h') (EngineOwnDefs.Rof (fst h')))).
 Proof. exact EngineReadersExact.hist_exact_init. Qed.
 Print Assumptions C10_engine_no_page_is_lost_with_readers.
+
+(* ---- close + reopen in the engine model: the free list rebuilt from the free-list page holds every id that was free or
+   pending (nothing freed before the close is lost), and histories of transactions and reopens keep the exact partition ---- *)
+From Jamm Require Spec EngineAbs EngineSpillDepth EngineReopen.
+Theorem C10_engine_reopen_keeps_every_reusable_page : forall st : Engine.db, EngineNoLeak.flids_ok st ->
+  forall x : N, In x (Engine.d_free (Engine.reopen_db st)) <->
+                In x (Engine.d_free st) \/ In x (PL.pend_all (Engine.d_pending st)).
+Proof. exact EngineReopen.reopen_free_all. Qed.
+Print Assumptions C10_engine_reopen_keeps_every_reusable_page.
+
+Theorem C10_engine_histories_with_reopen : forall (P : N) (hs : list EngineReopen.hop) (st' : Engine.db),
+  (0 < P)%N -> EngineReopen.hops_ok (Engine.init_db P) hs ->
+  EngineReopen.run_hops (Engine.init_db P) hs = Engine.Ok st' ->
+  EngineNoLeak.db_exact_rec st' /\ EngineSpillDepth.db_okd st' /\ EngineReadersInv.db_okr st' /\
+  EngineAbs.abs_db st' = EngineReopen.sem_hops hs (Spec.SBucket 0 0 nil) /\
+  (forall x : N, In x (Engine.d_flids st') <->
+     ((2 <= x)%N /\ (x < Engine.d_np st')%N) /\ ~ In x (EngineRefines.live_of st' (EngineOwnDefs.Rof st'))).
+Proof. exact EngineReopen.run_hops_exact_init. Qed.
+Print Assumptions C10_engine_histories_with_reopen.
